@@ -1,8 +1,9 @@
 /-
-  Published definitions, written independently of the code's structure (CIE 15:2004 and the usual textbook forms).
-  Over ℝ; noncomputable where needed.
+  Published definitions, written independently of the code's structure (CIE 15:2004 and the usual textbook forms; the HSLuv
+  rev4 reference implementation).  Over ℝ; noncomputable where needed.  Constants are typed in by hand from the publications.
 -/
 import Mathlib.Analysis.SpecialFunctions.Pow.Real
+import Mathlib.Analysis.SpecialFunctions.Complex.Arg
 
 namespace Spec.Cie
 
@@ -11,5 +12,100 @@ noncomputable def xyY (X Y Z : ℝ) : ℝ × ℝ × ℝ := (X / (X + Y + Z), Y /
 
 /-- and back: `X = x·Y/y`, `Z = (1−x−y)·Y/y` -/
 noncomputable def xyzOfxyY (x y Y : ℝ) : ℝ × ℝ × ℝ := (x * Y / y, Y, (1 - x - y) * Y / y)
+
+/-! ### CIE 1976 L\*a\*b\* (CIE 15:2004 §8.2.1) -/
+
+/-- `f(t) = t^(1/3)` if `t > (6/29)³`, else `t / (3 (6/29)²) + 4/29` -/
+noncomputable def f (t : ℝ) : ℝ := if t > (6 / 29 : ℝ) ^ 3 then t ^ ((1 : ℝ) / 3) else t / (3 * (6 / 29 : ℝ) ^ 2) + 4 / 29
+
+/-- `L* = 116 f(Y/Yn) − 16`, `a* = 500 (f(X/Xn) − f(Y/Yn))`, `b* = 200 (f(Y/Yn) − f(Z/Zn))` -/
+noncomputable def lab (Xn Yn Zn X Y Z : ℝ) : ℝ × ℝ × ℝ :=
+  (116 * f (Y / Yn) - 16, 500 * (f (X / Xn) - f (Y / Yn)), 200 * (f (Y / Yn) - f (Z / Zn)))
+
+/-- reverse transformation: `f⁻¹(t) = t³` if `t > 6/29`, else `3 (6/29)² (t − 4/29)` -/
+noncomputable def fInv (t : ℝ) : ℝ := if t > (6 / 29 : ℝ) then t ^ 3 else 3 * (6 / 29 : ℝ) ^ 2 * (t - 4 / 29)
+
+noncomputable def xyzOfLab (Xn Yn Zn L a b : ℝ) : ℝ × ℝ × ℝ :=
+  (Xn * fInv ((L + 16) / 116 + a / 500), Yn * fInv ((L + 16) / 116), Zn * fInv ((L + 16) / 116 - b / 200))
+
+/-! ### polar forms (CIE 15:2004 eq. 8.12–8.13, 8.31–8.32): `C = √(a² + b²)`, `h = arctan(b/a)` by quadrant = `atan2(b, a)` -/
+
+noncomputable def chroma (a b : ℝ) : ℝ := Real.sqrt (a ^ 2 + b ^ 2)
+/-- hue angle in degrees, in `(−180, 180]`; the stored hue is compared modulo 360 -/
+noncomputable def hueDeg (a b : ℝ) : ℝ := Complex.arg ⟨a, b⟩ * 180 / Real.pi
+/-- and back: `a = C cos h`, `b = C sin h` (`h` in degrees) -/
+noncomputable def cartesian (C h : ℝ) : ℝ × ℝ := (C * Real.cos (h * Real.pi / 180), C * Real.sin (h * Real.pi / 180))
+
+/-! ### CIE 1976 L\*u\*v\* (CIE 15:2004 §8.2.2) -/
+
+noncomputable def uPrime (X Y Z : ℝ) : ℝ := 4 * X / (X + 15 * Y + 3 * Z)
+noncomputable def vPrime (X Y Z : ℝ) : ℝ := 9 * Y / (X + 15 * Y + 3 * Z)
+
+/-- `L* = 116 (Y/Yn)^(1/3) − 16` if `Y/Yn > (6/29)³`, else `(29/3)³ Y/Yn` -/
+noncomputable def lightness (yr : ℝ) : ℝ := if yr > (6 / 29 : ℝ) ^ 3 then 116 * yr ^ ((1 : ℝ) / 3) - 16 else (29 / 3 : ℝ) ^ 3 * yr
+
+/-- `u* = 13 L* (u′ − u′ₙ)`, `v* = 13 L* (v′ − v′ₙ)` -/
+noncomputable def luv (Xn Yn Zn X Y Z : ℝ) : ℝ × ℝ × ℝ :=
+  let L := lightness (Y / Yn)
+  (L, 13 * L * (uPrime X Y Z - uPrime Xn Yn Zn), 13 * L * (vPrime X Y Z - vPrime Xn Yn Zn))
+
+/-- reverse: `Y = Yn ((L+16)/116)³` if `L > 8` else `Yn L (3/29)³`; `u′ = u/(13L) + u′ₙ`, `v′ = v/(13L) + v′ₙ`;
+    `X = Y 9u′/(4v′)`, `Z = Y (12 − 3u′ − 20v′)/(4v′)` -/
+noncomputable def xyzOfLuv (Xn Yn Zn L u v : ℝ) : ℝ × ℝ × ℝ :=
+  let Y := Yn * (if L > 8 then ((L + 16) / 116) ^ 3 else L * (3 / 29 : ℝ) ^ 3)
+  let u' := u / (13 * L) + uPrime Xn Yn Zn
+  let v' := v / (13 * L) + vPrime Xn Yn Zn
+  (Y * (9 * u') / (4 * v'), Y, Y * (12 - 3 * u' - 20 * v') / (4 * v'))
+
+/-! ### HSLuv (rev4 reference: `getBounds`, `lengthOfRayUntilIntersect`, `maxChromaForLH`, `lchToHsluv`, `hsluvToLch`) -/
+
+/-- `m`: the reference's 15-digit XYZ → linear sRGB matrix -/
+def hsluvM : Fin 3 → Fin 3 → ℝ
+  | 0, 0 => 3.240969941904521 | 0, 1 => -1.537383177570093 | 0, 2 => -0.498610760293
+  | 1, 0 => -0.96924363628087 | 1, 1 => 1.87596750150772 | 1, 2 => 0.041555057407175
+  | 2, 0 => 0.055630079696993 | 2, 1 => -0.20397695888897 | 2, 2 => 1.056971514242878
+def hsluvKappa : ℝ := 903.2962962
+def hsluvEpsilon : ℝ := 0.0088564516
+
+noncomputable def sub2 (L : ℝ) : ℝ :=
+  let sub1 := (L + 16) ^ 3 / 1560896
+  if sub1 > hsluvEpsilon then sub1 else L / hsluvKappa
+
+/-- `getBounds(L)`: line `(c, t)` as `(slope, intercept)`, `c` = RGB channel, `t ∈ {0, 1}` -/
+noncomputable def bound (L : ℝ) (c : Fin 3) (t : ℝ) : ℝ × ℝ :=
+  let m1 := hsluvM c 0; let m2 := hsluvM c 1; let m3 := hsluvM c 2
+  let top1 := (284517 * m1 - 94839 * m3) * sub2 L
+  let top2 := (838422 * m3 + 769860 * m2 + 731718 * m1) * L * sub2 L - 769860 * t * L
+  let bottom := (632260 * m3 - 126452 * m2) * sub2 L + 126452 * t
+  (top1 / bottom, top2 / bottom)
+
+noncomputable def bounds (L : ℝ) : List (ℝ × ℝ) :=
+  [bound L 0 0, bound L 0 1, bound L 1 0, bound L 1 1, bound L 2 0, bound L 2 1]
+
+/-- `lengthOfRayUntilIntersect(θ, line) = intercept / (sin θ − slope cos θ)` -/
+noncomputable def rayLength (θ : ℝ) (b : ℝ × ℝ) : ℝ := b.2 / (Real.sin θ - b.1 * Real.cos θ)
+
+/-- `maxChromaForLH`: the minimum of the non-negative ray lengths, starting from the largest float -/
+noncomputable def maxChromaForLH (L H : ℝ) : ℝ :=
+  (bounds L).foldl (fun acc b => if rayLength (H / 360 * Real.pi * 2) b ≥ 0 then min acc (rayLength (H / 360 * Real.pi * 2) b) else acc)
+    1.7976931348623157e308
+
+/-- `lchToHsluv`: `(L, C, H) ↦ (H, S, L)` -/
+noncomputable def lchToHsluv (L C H : ℝ) : ℝ × ℝ × ℝ :=
+  if L > 99.9999999 then (H, 0, 100) else if L < 0.00000001 then (H, 0, 0) else (H, C / maxChromaForLH L H * 100, L)
+
+/-- `hsluvToLch`: `(H, S, L) ↦ (L, C, H)` -/
+noncomputable def hsluvToLch (H S L : ℝ) : ℝ × ℝ × ℝ :=
+  if L > 99.9999999 then (100, 0, H) else if L < 0.00000001 then (0, 0, H) else (L, maxChromaForLH L H / 100 * S, H)
+
+/-! ### cone response matrices (Lam 1985 "Bradford"; Hunt–Pointer–Estevez "von Kries"; XYZ scaling) -/
+def bradford : Fin 3 → Fin 3 → ℝ
+  | 0, 0 => 0.8951 | 0, 1 => 0.2664 | 0, 2 => -0.1614
+  | 1, 0 => -0.7502 | 1, 1 => 1.7135 | 1, 2 => 0.0367
+  | 2, 0 => 0.0389 | 2, 1 => -0.0685 | 2, 2 => 1.0296
+def vonKries : Fin 3 → Fin 3 → ℝ
+  | 0, 0 => 0.40024 | 0, 1 => 0.7076 | 0, 2 => -0.08081
+  | 1, 0 => -0.2263 | 1, 1 => 1.16532 | 1, 2 => 0.0457
+  | 2, 0 => 0 | 2, 1 => 0 | 2, 2 => 0.91822
 
 end Spec.Cie
